@@ -72,6 +72,7 @@ func init() {
 					p.Spec = engine.RateSpec(mode, c, 5, c)
 				}
 				p.Spec.IgnoreDropped = true
+				p.Spec.Interactive, p.Spec.Verbose = r.IntN(3) == 0, r.IntN(4) == 0
 				p.Spec.CompletionMS = 150 + r.IntN(150)
 				if strings.HasSuffix(p.Ending, "-latecancel") {
 					// triggering stops by itself, the caller cancels while the run waits for held iterations
